@@ -1245,6 +1245,105 @@ pub fn search(start: &str, depth: usize) -> Result<Res, String> {
     Ok(res)
 }
 
+/// histories through a PLACEHOLDER: `&mut doc["t"]["x"]` without assigning leaves a hidden slot; later calls that fill or
+/// drop it must not disturb the visible entries (their relative order, their text)
+fn placeholder_histories(rep: &mut Report) {
+    let t0 = std::time::Instant::now();
+    let mut acc = Acc::default();
+    let starts = [("inline table", "t = { a = 1, b = 2 , c = 3, d = 4 } # @t\nz = 0 # @z\n"), ("table", "[t] # @t\na = 1 # @a\nb = 2 # @b\nc = 3 # @c\nd = 4 # @d\n[u] # @u\nz = 0 # @z\n")];
+    let finals = ["nothing", "entry(x).or_insert", "TableLike::entry(x).or_insert", "TableLike::insert(x)", "index assignment", "get_or_insert / entry_format", "remove(x)", "TableLike::get_mut(x) + entry(x).or_insert"];
+    for (cname, start) in starts {
+        for probes in 1..=2usize {
+            for k in 0..=3usize {
+                for (fi, fname) in finals.iter().enumerate() {
+                    acc.evals += 1;
+                    let label = format!("{}: {} probe(s) of a missing key, {} insert(s), then {}", cname, probes, k, fname);
+                    acc.nontrivial(label.as_bytes());
+                    let r = guarded(|| -> Result<(), String> {
+                        let mut doc: DocumentMut = start.parse().map_err(|e: toml_edit::TomlError| e.message().to_string())?;
+                        let _ = &mut doc["t"]["x"];
+                        if probes == 2 {
+                            let _ = &mut doc["t"]["w"];
+                        }
+                        for i in 0..k {
+                            doc["t"].as_table_like_mut().ok_or("t is not table-like")?.insert(&format!("n{}", i), toml_edit::value(10 + i as i64));
+                        }
+                        let mut x_present = true;
+                        match fi {
+                            0 => x_present = false,
+                            1 => {
+                                if let Some(t) = doc["t"].as_inline_table_mut() {
+                                    t.entry("x").or_insert(Value::from(9));
+                                } else {
+                                    doc["t"].as_table_mut().ok_or("t")?.entry("x").or_insert(toml_edit::value(9));
+                                }
+                            }
+                            2 => {
+                                doc["t"].as_table_like_mut().ok_or("t")?.entry("x").or_insert(toml_edit::value(9));
+                            }
+                            3 => {
+                                doc["t"].as_table_like_mut().ok_or("t")?.insert("x", toml_edit::value(9));
+                            }
+                            4 => doc["t"]["x"] = toml_edit::value(9),
+                            5 => {
+                                if let Some(t) = doc["t"].as_inline_table_mut() {
+                                    t.get_or_insert("x", 9);
+                                } else {
+                                    doc["t"].as_table_mut().ok_or("t")?.entry_format(&toml_edit::Key::new("x")).or_insert(toml_edit::value(9));
+                                }
+                            }
+                            6 => {
+                                let _ = doc["t"].as_table_like_mut().ok_or("t")?.remove("x");
+                                x_present = false;
+                            }
+                            _ => {
+                                let tl = doc["t"].as_table_like_mut().ok_or("t")?;
+                                let _ = tl.get_mut("x");
+                                tl.entry("x").or_insert(toml_edit::value(9));
+                            }
+                        }
+                        let text = doc.to_string();
+                        let back: DocumentMut = text.parse().map_err(|e: toml_edit::TomlError| format!("printed {:?} is not valid: {}", text, e.message()))?;
+                        if !matches!(refmodel::ref_parse(&text), refmodel::Verdict::Valid { .. }) {
+                            return Err(format!("printed {:?} is not valid TOML", text));
+                        }
+                        let keys = |d: &DocumentMut| -> Vec<String> { d["t"].as_table_like().map(|t| t.iter().map(|(k, _)| k.to_string()).collect()).unwrap_or_default() };
+                        let mut want: Vec<String> = ["a", "b", "c", "d"].iter().map(|s| s.to_string()).collect();
+                        for i in 0..k {
+                            want.push(format!("n{}", i));
+                        }
+                        for (who, got) in [("in memory", keys(&doc)), ("printed and re-parsed", keys(&back))] {
+                            let others: Vec<String> = got.iter().filter(|k| *k != "x").cloned().collect();
+                            if others != want {
+                                return Err(format!("{}: the entries other than x are [{}], the reference ordered map has [{}] (text {:?})", who, others.join(","), want.join(","), text));
+                            }
+                            if got.contains(&"x".to_string()) != x_present {
+                                return Err(format!("{}: x present = {}, expected {} (text {:?})", who, !x_present, x_present, text));
+                            }
+                        }
+                        if x_present && back["t"]["x"].as_integer() != Some(9) {
+                            return Err(format!("x does not decode to 9 (text {:?})", text));
+                        }
+                        for line in start.lines().filter(|l| l.contains("# @") && !l.contains("# @t")) {
+                            if !text.contains(line) {
+                                return Err(format!("the untouched line {:?} changed: {:?}", line, text));
+                            }
+                        }
+                        Ok(())
+                    });
+                    match r {
+                        Ok(Ok(())) => acc.bump("placeholder-history-ok"),
+                        Ok(Err(e)) => acc.viol("U-placeholder", label, None, e),
+                        Err(p) => acc.viol("U-placeholder", label, None, format!("panic: {}", p)),
+                    }
+                }
+            }
+        }
+    }
+    let n = acc.evals;
+    rep.absorb("U-placeholder", "inline table / standard table x 1-2 placeholders left by mutable indexing x 0-3 later inserts x 8 ways of filling, dropping or ignoring the placeholder: visible entries keep their order and text", n, true, t0, acc);
+}
+
 pub fn c08(tier: Tier) -> i32 {
     let mut rep = Report::new(
         "C08",
@@ -1292,6 +1391,7 @@ pub fn c08(tier: Tier) -> i32 {
             }
         }
     }
+    placeholder_histories(&mut rep);
     rep.extra.insert("depth_bound".into(), serde_json::json!(depth));
     rep.exhaustive = true;
     rep.finish()
